@@ -1,6 +1,7 @@
 import TakVerif.Impl.PTN
 import TakVerif.Impl.PTNInst
 import TakVerif.Proofs.PTNIter
+import TakVerif.Proofs.PTNRender
 
 /-! C12: PTN files — positional lookup (`Iterator`, `PositionAtMove`) and render/parse.
 
@@ -129,6 +130,52 @@ theorem positionAtMove_init_error (env : Env) (f : File) (w : String)
     rw [this _ rfl]
     exact ⟨w, rfl⟩
 
+/-! ### Render / Parse
+
+`renderSafe env p` (decidable, `Proofs/PTNRender.lean`) is the fragment on which the text form is lossless:
+tag names without space or `]`, tag values without `"` or `]`; comments without `}` (and shorter than the
+scanner's 64 KiB token limit); annotations over `?!'`; results among the 25 strings `resultRE` matches; move
+numbers in the `int` range; and every move `moveSafe`: `FormatMove` gives one clean token (no white space,
+not starting with `{` or `[`, not ending in `.` or an annotation character, not a result string, within the
+token limit) that `ParseMove` reads back as the same move — for the real functions that is C11's round trip. -/
+
+/-- **Token level.**  Parsing the rendering of a `renderSafe` value succeeds and gives back the same tags
+and the same ops — move numbers, moves with their annotations, comments, results, in order — up to the
+`src` field (the parser records each op's token there; `Render` and the tests ignore it).  A byte-order
+mark in front changes nothing. -/
+theorem render_parse_tokens (env : Env) (f : File) (hs : renderSafe env f = true) :
+    ∃ g, parsePTN env (render env f) = .ok g ∧
+      parsePTN env (0xEF :: 0xBB :: 0xBF :: render env f) = .ok g ∧
+      g.tags = f.tags ∧ g.ops.map Op.clearSrc = f.ops.map Op.clearSrc := by
+  refine ⟨_, parse_render env f hs, parse_bom_render env f hs, rfl, ?_⟩
+  simp only [List.map_map]
+  congr 1
+  funext op
+  exact clearSrc_withSrc env op
+
+/-- **Byte level (partial).**  `Render`'s output is a fixed point: rendering what was parsed from it gives
+the same bytes again.
+Not covered (hence `_partial`): (1) values outside `renderSafe` — a comment containing `}`, a tag value
+containing `"`, a tag name with a space do *not* survive (the real code agrees with the model on them in the
+correspondence run, counted as `reparse.differs-unsafe`); (2) `Render (ParsePTN b) = b` for an arbitrary
+file `b` is false (white space and quoting are normalised) and no theorem relates the two beyond what
+`render_parse_tokens` says about `Render`'s own output; (3) `moveSafe` is a hypothesis about
+`FormatMove`/`ParseMove`, discharged here only for the concrete examples. -/
+theorem render_parse_bytes_partial (env : Env) (f : File) (hs : renderSafe env f = true) :
+    ∃ g, parsePTN env (render env f) = .ok g ∧ render env g = render env f := by
+  refine ⟨_, parse_render env f hs, ?_⟩
+  simp only [render, List.flatMap_map]
+  congr 3
+  funext op
+  cases op <;> rfl
+
+/-- the full byte-level statement one would like, kept visible: every successfully parsed file re-renders
+to something that parses to the same value.  Not proved (needs `renderSafe` of parser output, which fails
+for tag values with inner quotes). -/
+def render_parse_bytes_statement (env : Env) : Prop :=
+  ∀ b f, parsePTN env b = .ok f → ∃ g, parsePTN env (render env f) = .ok g ∧
+    g.tags = f.tags ∧ g.ops.map Op.clearSrc = f.ops.map Op.clearSrc
+
 /-! #### a concrete record meets the hypotheses, and the theorems say something about it -/
 
 /-- `[Size "3"]  1. a1 b2  2. c3 {x}  3.` with the transcribed move functions -/
@@ -153,5 +200,12 @@ example : ∃ p0, initialPosition exEnv exFile = .ok p0 ∧
     (specFrames exEnv.basis exFile.ops 0 p0).1.map (fun fr => (fr.1, fr.2.move)) = [(1, 0), (1, 1), (2, 2), (3, 3)] ∧
     (specFrames exEnv.basis exFile.ops 0 p0).2 = false :=
   ⟨_, rfl, by decide, by decide⟩
+
+/-- the example record, with an annotation, a comment and a result added, is inside the safe fragment -/
+def exFile2 : File :=
+  ⟨exFile.tags ++ [⟨[80, 49], [97, 32, 98]⟩],
+   exFile.ops ++ [.move [] ⟨0, 0, Facts.mtSlideRight, 1#32⟩ [33, 63], .comment [] [123, 32, 46], .result [] [82, 45, 48]]⟩
+
+example : renderSafe exEnv exFile2 = true := by decide
 
 end C12
